@@ -86,6 +86,23 @@ class CounterHooks(CtxHooks):
         return CtxHooks.opaque_call(self, eng, st, fn, args, kwargs)
 
 
+def counter_use(chk, prefix="C08"):
+    """_create_step_id: exactly one increment(), and the id is the id of the value THAT increment returned"""
+    eng = Engine(hooks=CounterHooks())
+    P = eng.program
+    st = St()
+    ctx, parent, c0, state = make_ctx(eng, st)
+    q = DC + "._create_step_id"
+    chk.function(q)
+    for k, v, s in eng.run(P.func(q), [ctx], st=st):
+        chk.paths += 1
+        calls = [e for e in s.trace if e.kind == "counter"]
+        chk.prove(f"{prefix}.ctx.counter", s.pc, z3.And(z3.BoolVal(k == "val" and len(calls) == 1 and calls[0].method == "increment"), s.ghost["counter"] == c0 + 1, zstr(v) == spec_id(parent, c0 + 1)) if k == "val" else F,
+                  desc="each id is taken with exactly one atomic increment of the context's counter and is the id of the value that increment returned (not of a later read of the counter, which other threads may have advanced)",
+                  sample="_create_step_id: one increment(), id == id_for(counter0 + 1)")
+    return eng
+
+
 def id_contracts(chk, prefix="C08"):
     eng = Engine(hooks=CounterHooks())
     P = eng.program
@@ -103,17 +120,7 @@ def id_contracts(chk, prefix="C08"):
         chk.prove(f"{prefix}.ctx.id_is_hash_of_path", s.pc, z3.And(z3.BoolVal(k == "val" and unchanged and not s.trace), zstr(v) == spec_id(parent, n.t)) if k == "val" else F,
                   desc="the id of logical step n is blake2b(parent_id + '-' + n, or n at the root)[:64]: a pure function of (parent id, n); nothing is read but _parent_id, nothing is written",
                   sample="_create_step_id_for_logical_step(n) == hash(enc(parent_id, n))[:64]")
-    # ---- _create_step_id
-    st = St()
-    ctx, parent, c0, state = make_ctx(eng, st)
-    q = DC + "._create_step_id"
-    chk.function(q)
-    for k, v, s in eng.run(P.func(q), [ctx], st=st):
-        chk.paths += 1
-        calls = [e for e in s.trace if e.kind == "counter"]
-        chk.prove(f"{prefix}.ctx.counter", s.pc, z3.And(z3.BoolVal(k == "val" and len(calls) == 1 and calls[0].method == "increment"), s.ghost["counter"] == c0 + 1, zstr(v) == spec_id(parent, c0 + 1)) if k == "val" else F,
-                  desc="each id is taken with exactly one atomic increment of the context's counter and is the id of the value that increment returned",
-                  sample="_create_step_id: one increment(), id == id_for(counter0 + 1)")
+    counter_use(chk, prefix)
     # ---- injectivity lemma (strings)
     p1, p2 = z3.String("p1"), z3.String("p2")
     n1, n2 = z3.Int("n1"), z3.Int("n2")
